@@ -13,7 +13,7 @@ import (
 	"pgregory.net/rapid"
 )
 
-var profile = histeng.Profile{MaxTargets: 6, Edits: histeng.AllEdits, DirOutputs: true, BinOutputs: true, MinSteps: 4, MaxSteps: 12, SubsetBuilds: true, Clean: true, Groups: true}
+var profile = histeng.Profile{MaxTargets: 6, Edits: histeng.AllEdits, DirOutputs: true, BinOutputs: true, MinSteps: 4, MaxSteps: 12, SubsetBuilds: true, Clean: true, Groups: true, Minimal: true}
 
 func run(h histeng.History) (pbt.Result, error) {
 	obs, err := histeng.RunHistory(h, os.Getenv("GROG_BIN"), histeng.Oracles{FreshCompareEvery: 4})
